@@ -590,3 +590,43 @@ def rule_stackvec(col, facts):
         col.floor("WHO-length", "writers of StackVec.length", len(writers), 3)
     else:
         col.bad("WHO-length", "anchor", "StackVec.length field not found", "")
+
+
+LENGTH_ONLY = ("is_buffer_empty", "as_slice().is_empty()")
+
+
+def rule_step_content(col, facts, crates):
+    """BLF-step: `step_by_unchecked_impl` states (debug_assert!) that on a non-contiguous iterator the byte
+    being stepped over is not the digit separator - it has to have been looked at.  A step whose only guard is
+    a *length* fact (`!is_buffer_empty()`) steps over an unexamined byte; that is fine only where the iterator
+    is known to be contiguous.  Otherwise an input with a separator at that position (`3h_` with a base suffix
+    and integer separators) panics in debug-assertion builds."""
+    R = "BLF-step"
+    n = 0
+    bad = {}
+    for f in facts.all_fns():
+        if f.crate not in crates:
+            continue
+        for bb, c, a, d, t in f.calls():
+            cn = callee_name(c)
+            if not cn.endswith(("Iter::step_unchecked", "Iter::step_by_unchecked")):
+                continue
+            recv = root(op_expr(f, a[0]))
+            conds = path_conditions(f, bb)
+            fs = [(cap, how) for r, cap, gd, how in iter_capacity_facts(conds) if r == recv]
+            if not fs:
+                continue            # forwarding wrappers / unguarded: GRD-step's business
+            n += 1
+            if fs[-1][1] not in LENGTH_ONLY:
+                continue
+            contig = any((strip_casts(e)[0] == "call" and last_seg(strip_casts(e)[1]) == "is_contiguous" and p is True) or
+                         (strip_casts(e)[0] == "kc" and last_seg(strip_casts(e)[1]) == "IS_CONTIGUOUS" and p is True) for _d, e, p in conds)
+            name = f.short if f.kind != "Closure" else f.closure_of
+            bad.setdefault(name, [0, 0, f.loc(f.blocks[bb]["ts"])])
+            bad[name][0] += 1
+            if not contig:
+                bad[name][1] += 1
+    for name, (tot, nb, loc) in sorted(bad.items()):
+        col.check(R, "%s:length-only-step" % name, nb == 0,
+                  "%d of %d steps guarded only by `!is_buffer_empty()` are taken on an iterator not known to be contiguous: the byte stepped over was never looked at, and step_by_unchecked_impl's debug assertion (it must not be a digit separator) fails for e.g. `3h_` with a base suffix and integer digit separators" % (nb, tot), loc)
+    col.floor(R, "guarded iterator steps examined", n, 10)
